@@ -1,4 +1,4 @@
-import JjModel.Lemmas.DiffRefine
+import JjModel.Lemmas.DiffMatch
 /-!
   C03 — Content diffs partition their inputs deterministically.
 
@@ -94,6 +94,39 @@ theorem build_isSome (inputs : List Bytes) (s : Tokenizer × Compare) (steps : L
     (h : inputs ≠ []) : ∃ d, build inputs (s :: steps) = some d := by
   obtain ⟨d0, hd0⟩ := forTokenizer_isSome inputs s.1 s.2 h
   exact ⟨steps.foldl (fun d s => d.refine s.1 s.2) d0, by simp [build, hd0]⟩
+
+/-! ### (c) matching hunks are equal under the comparison -/
+
+/-- **Matching hunks are equal (c), end to end.**  `c0` is any comparison at least as weak as every
+comparison used by the construction steps (`exact ⊆ ignoreWsAmount ⊆ ignoreAllWs`; for the usual
+uniform choice `c0` is that comparison).  In every matching hunk all contents are equal under `c0`.
+Ingredients: matched token positions join equal words (`unchangedWords_ok`), the comparisons are
+congruences for concatenation (`norm_append_congr`, needed because compaction glues adjacent
+tokens), refinement works on slices of slices (`slice_slice`). -/
+theorem matching_equal (c0 : Compare) (inputs : List Bytes) (steps : List (Tokenizer × Compare))
+    (hle : ∀ s ∈ steps, s.2.le c0 = true) (d : ContentDiff) (h : build inputs steps = some d) :
+    ∀ hk ∈ d.hunks, hk.1 = .matching → ∀ i j, i < inputs.length → j < inputs.length →
+      c0.eq (hk.2.getD i []) (hk.2.getD j []) = true := by
+  obtain ⟨e, w⟩ := build_wf inputs steps d h
+  have hm := build_match c0 inputs steps hle d h
+  intro hk hmem hkind i j hi hj
+  simp only [ContentDiff.hunks, List.mem_map] at hmem
+  obtain ⟨hr, hrmem, rfl⟩ := hmem
+  have hreg : hr.ranges ∈ d.regions := hunkRangesOf_matching_mem d.regions hr hrmem hkind
+  have har : hr.ranges.length = inputs.length := w.arity _ hreg
+  have hslice : ∀ k, k < inputs.length →
+      (List.zipWith slice d.inputs hr.ranges).getD k [] = slice (inputs.getD k []) (hr.ranges.getD k ⟨0, 0⟩) := by
+    intro k hk
+    rw [e]
+    exact getD_zipWith slice inputs hr.ranges k [] ⟨0, 0⟩ [] hk (by rw [har]; exact hk)
+  simp only [Compare.eq, decide_eq_true_eq, hslice i hi, hslice j hj]
+  rw [hm _ hreg i hi, hm _ hreg j hj]
+
+/-- the comparisons are congruences for concatenation -/
+theorem compare_congruence (c : Compare) (a a' b b' : Bytes) (ha : c.eq a a' = true) (hb : c.eq b b' = true) :
+    c.eq (a ++ b) (a' ++ b') = true := by
+  simp only [Compare.eq, decide_eq_true_eq] at *
+  exact norm_append_congr c a a' b b' ha hb
 
 /-! ### non-vacuity -/
 
